@@ -196,6 +196,14 @@ def main(argv=None):
     t0 = time.monotonic()
     timeout = getattr(mod, "TIMEOUT", 120)
 
+    if not args.replay:
+        # Replay files of earlier runs of this check are stale.
+        import glob
+        for old in glob.glob(os.path.join(VERIF, "replays", f"{pid}-*.json")):
+            try:
+                os.remove(old)
+            except OSError:
+                pass
     if args.replay:
         with open(args.replay) as fh:
             replay = json.load(fh)
